@@ -39,7 +39,7 @@ def g_client_call(rng):
                 "filter": None if rng.random() < 0.5 else gen.g_filter(rng, 2), "attrs": [C.tx("cn")] if rng.random() < 0.5 else [],
                 "controls": small_controls(rng)}
     if r < 0.9:
-        return {"k": "extended", "name": C.tx(rng.choice(["1.3.6.1.4.1.1466.20037", "1.2.3"])), "value": rng.choice([None, "", "00ff"]),
+        return {"k": "extended", "name": C.tx(rng.choice(["1.3.6.1.4.1.1466.20037", "1.2.3", NOTICE])), "value": rng.choice([None, "", "00ff"]),
                 "controls": small_controls(rng)}
     return {"k": "unbind"}
 
@@ -98,6 +98,8 @@ def crafted_for_server(rng, custom=False):
     kind = rng.choice(["bindReq", "searchReq", "extReq", "extReq", "unbind", "bindResp", "extResp", "searchDone"])
     op = gen.g_op(rng, kind, depth=1, allow_custom=custom)
     if kind == "extResp" and rng.random() < 0.5:
+        op["name"] = C.tx(NOTICE)
+    if kind == "extReq" and rng.random() < 0.2:
         op["name"] = C.tx(NOTICE)
     m = {"id": rng.choice([1, 2, 3, 5, 0, 70000]), "op": op, "controls": gen.g_controls(rng, allow_custom=True) if custom else []}
     return C.msg_from_json(m).pack(M.PackingOptions()), m
@@ -418,6 +420,7 @@ def small_alphabet(role):
             {"k": "bind", "dn": t(""), "cred": {"k": "simple", "pw": t("")}, "controls": []},
             {"k": "search", "base": t(""), "scope": 2, "deref": 0, "size": 0, "time": 0, "typesOnly": False, "filter": None, "attrs": [], "controls": []},
             {"k": "extended", "name": t("1.2"), "value": None, "controls": []},
+            {"k": "extended", "name": t(NOTICE), "value": None, "controls": []},   # a REQUEST that merely carries the notice-of-disconnection OID
             {"k": "unbind"},
         ]
         for i in (1, 2):
